@@ -156,6 +156,8 @@ func c05Ctx(env *c05Env) *plush.Context {
 		return nil, env.sentinel
 	})
 	// the last result is declared as an interface that embeds error, not as error itself
+	ctx.Set("okf", func(id string) string { return "fine" })
+	ctx.Set("okf2", func(id string) (string, int) { return "fine", 2 })
 	ctx.Set("failc", func(id string) (string, c05CodedError) {
 		env.calls++
 		env.sentinel = c05Coded{env.sentinel}
@@ -228,7 +230,7 @@ func c05Ctx(env *c05Env) *plush.Context {
 	return ctx
 }
 
-const c05Prelude = "<% let ufe = fn(rv) { return rv } %><% let uf = fn(a) { return a } %><% let uf2 = fn(a, b) { return b } %><% let ufu = fn(a) { return nopeInBody } %>"
+const c05Prelude = "<% let ufe = fn(rv) { return rv } %><% let uf = fn(a) { return a } %><% let uf2 = fn(a, b) { return b } %><% let ufu = fn(a) { return nopeInBody } %><% let callf = fn(f) { return f(\"p\") } %>"
 
 // fault expressions: the failing helper, and instrumented failing operations.
 var c05Faults = []struct {
@@ -236,6 +238,9 @@ var c05Faults = []struct {
 	sentinel   bool // errors.Is(err, sentinel) is demanded
 }{
 	{"fail-helper", `fail("p")`, true},
+	// one call site, several callees: the site that has just called a function that cannot fail calls one that does
+	{"fail-helper-at-a-call-site-that-called-something-else-before", `[callf(okf), callf(okf2), callf(fail)][2]`, true},
+	{"fail-helper-after-a-harmless-one-through-one-function", `uf2(callf(okf), callf(fail))`, true},
 	{"fail-helper-error-declared-as-wider-interface", `failc("p")`, true},
 	{"fail-helper-zero-valued-error", `failz("p")`, true},
 	{"fail-helper-deadline-exceeded", `faildl("p")`, true},
